@@ -10,15 +10,29 @@
 (***************************************************************************)
 EXTENDS MarkerTable, TLC, Json
 
-CONSTANTS NGenes, MaxMin
+CONSTANTS NGenes, MaxMin, Deep
 
-Tree == [hier |-> <<1, 2, 3>>, keys |-> {1, 2, 3},
+\* Deep = TRUE: a 4-level tree in which parent 3/1 has two proper ancestors (2/1, 1/1), so that
+\* "nearest first" is observable:  L1: 1 2   L2: 1 2|3   L3: 1 2|3|4   L4: 1 2|3|4|5
+Tree4 == [hier |-> <<1, 2, 3, 4>>, keys |-> {1, 2, 3, 4},
+          nodes |-> [l \in {1, 2, 3, 4} |-> IF l = 1 THEN {1, 2} ELSE IF l = 2 THEN {1, 2, 3}
+                                              ELSE IF l = 3 THEN {1, 2, 3, 4} ELSE 1..5],
+          kids |-> [l \in {1, 2, 3, 4} |->
+                     IF l = 1 THEN (1 :> {1, 2} @@ 2 :> {3})
+                     ELSE IF l = 2 THEN (1 :> {1, 2} @@ 2 :> {3} @@ 3 :> {4})
+                     ELSE IF l = 3 THEN (1 :> {1, 2} @@ 2 :> {3} @@ 3 :> {4} @@ 4 :> {5})
+                     ELSE [n \in 1..5 |-> {}]],
+          cells |-> [n \in 1..5 |-> {}]]
+
+Tree3 == [hier |-> <<1, 2, 3>>, keys |-> {1, 2, 3},
          nodes |-> [l \in {1, 2, 3} |-> IF l = 1 THEN {1, 2} ELSE IF l = 2 THEN {1, 2, 3} ELSE 1..5],
          kids |-> [l \in {1, 2, 3} |->
                      IF l = 1 THEN (1 :> {1, 2} @@ 2 :> {3})
                      ELSE IF l = 2 THEN (1 :> {1, 2} @@ 2 :> {3} @@ 3 :> {4, 5})
                      ELSE [n \in 1..5 |-> {}]],
          cells |-> [n \in 1..5 |-> {}]]
+
+Tree == IF Deep THEN Tree4 ELSE Tree3
 
 Universe == 1..NGenes
 Choice == ChoiceParents(Tree)         \* Root, 1/1, 2/1, 2/3
